@@ -1,5 +1,151 @@
-(* Property C09 — tables delivered only with a valid CRC_32; muxed sections carry one (theorems only; proofs in Proofs/). *)
+(* Property C09 — tables delivered only with a valid CRC_32; muxed sections carry one.
+   Statements only; proofs are in Proofs/PsiProofs.v and Proofs/PsiDeps.v.  parse_psi_data, psi_to_data and
+   enc_psi_data are the model of data_psi.go (Model/Psi.v, run against the implementation on every check);
+   PSITableID_hasCRC32, computeCRC32 and updateCRC32 are re-translated from the source on every run;
+   crc32_mpeg2 is the bitwise reference of Spec/CrcSpec.v (C10 proves the translated code equal to it). *)
 From Coq Require Import ZArith List.
-Require Import Base.Bits Base.Iter Base.Wr Gen.Types Model.Psi.
+Require Import Base.Bits Base.Iter Base.Wr Gen.Consts Gen.Types Gen.Preds Model.Packet Model.Desc Model.Psi.
+Require Import Spec.CrcSpec Spec.DescSpec Spec.PsiSpec Proofs.PsiProofs Proofs.PsiDeps Proofs.PsiDescLink.
 Import ListNotations.
 Open Scope Z_scope.
+
+(* C09_gate: for every payload unit bs (any bytes) that parsePSIData accepts, every section in the result whose
+   table id carries a CRC_32 and that has a syntax part (i.e. content) lies at some offset a of bs, starts with
+   its table_id byte there, and the bitwise CRC-32/MPEG-2 of the bytes from the table_id up to the CRC_32 field
+   equals the big-endian value of the CRC_32 field.  No bound on the unit, the number of sections or their size. *)
+Theorem C09_gate : forall bs d s h, bytes_ok bs ->
+  parse_psi_data_bytes bs = Ok d -> In s (PSIData_Sections d) ->
+  PSISection_Header s = Some h -> PSITableID_hasCRC32 (PSISectionHeader_TableID h) = true ->
+  PSISection_Syntax s <> None ->
+  exists a, let e := a + 3 + PSISectionHeader_SectionLength h - 4 in
+    0 <= a /\ a <= e /\ e + 4 <= Z.of_nat (length bs) /\ nth (Z.to_nat a) bs 0 = PSISectionHeader_TableID h /\
+    crc32_mpeg2 (slice bs a e) = Iter.be32 (slice bs e (e + 4)) /\
+    PSISection_CRC32 s = crc32_mpeg2 (slice bs a e).
+Proof. exact gate_spec. Qed.
+Print Assumptions C09_gate.
+
+(* C09_delivered_implies_crc: whatever PSIData.toData hands to the demuxer (a PAT, PMT, NIT, SDT, EIT or TOT)
+   comes from a section of the unit that satisfies the statement above: a table is delivered only if the
+   CRC_32 in its section is correct for the section bytes. *)
+Theorem C09_delivered_implies_crc : forall bs d fp pid dd, bytes_ok bs ->
+  parse_psi_data_bytes bs = Ok d -> In dd (psi_to_data d fp pid) ->
+  exists s h a, In s (PSIData_Sections d) /\ In dd (section_to_data s fp pid) /\ PSISection_Header s = Some h /\
+    let e := a + 3 + PSISectionHeader_SectionLength h - 4 in
+    0 <= a /\ a <= e /\ e + 4 <= Z.of_nat (length bs) /\ nth (Z.to_nat a) bs 0 = PSISectionHeader_TableID h /\
+    crc32_mpeg2 (slice bs a e) = Iter.be32 (slice bs e (e + 4)).
+Proof. exact delivered_implies_crc. Qed.
+Print Assumptions C09_delivered_implies_crc.
+
+(* the six decoded table types are exactly covered: their table ids all carry a CRC_32 according to the
+   (regenerated) predicate of the source *)
+Theorem C09_decoded_tables_have_crc : forall tid,
+  (is_nit_id tid || (tid =? C_PSITableIDPAT) || (tid =? C_PSITableIDPMT) || is_sdt_id tid
+   || (tid =? C_PSITableIDTOT) || is_eit_id tid)%bool = true ->
+  PSITableID_hasCRC32 tid = true.
+Proof. exact decoded_has_crc. Qed.
+Print Assumptions C09_decoded_tables_have_crc.
+
+(* C09_mux_pat: every PAT section writePSISection emits (any flags, identifiers, version, section numbers; 0..253
+   programs = the 1021-byte limit; Header.SectionLength non-zero as the muxer sets it for a non-empty PAT) is
+   pre ++ be32 (CRC-32/MPEG-2 of pre) -- so the reference decoder's gate accepts it --, starts with table_id 0, and
+   its 12-bit section_length field equals the number of bytes written after the field.  By induction over the
+   program list; no premise about other models. *)
+Theorem C09_mux_pat : forall c h sh d pat,
+  PSISectionHeader_TableID h = 0 -> PSISectionHeader_SectionLength h > 0 ->
+  PSISectionSyntaxData_PAT d = Some pat -> (length (PATData_Programs pat) <= 253)%nat ->
+  exists its pre, enc_psi_section (mk_section c h sh d) = Ok its /\
+    bytes_of_items its = pre ++ CrcSpec.be32 (crc32_mpeg2 pre) /\
+    spec_crc_ok (bytes_of_items its) /\
+    (3 <= length pre)%nat /\ nth 0 pre 0 = 0 /\
+    bitsf (firstn 3 pre) 12 12 = Z.of_nat (length (bytes_of_items its)) - 3.
+Proof. exact mux_pat. Qed.
+Print Assumptions C09_mux_pat.
+
+(* C09_mux_pmt_rel: the same for every PMT section the writer accepts, RELATIVE to the descriptor length statement of
+   C14, which enters as an explicit premise (desc_ok is C14's domain of descriptor lists): what
+   writeDescriptorsWithLength emits for a list in that domain is whole bytes, 2 + calcDescriptorsLength of them.
+   pmt_body_len is the unwrapped sum the length calculator computes; the premise `+ 9 <= 4095` is the 12-bit
+   section_length (the standard's limit is 1021). *)
+Theorem C09_mux_pmt_rel : forall (desc_ok : list Descriptor -> Prop),
+  (forall ds its, desc_ok ds -> Desc.enc_descriptors_with_length ds = Ok its ->
+     items_bytes_ok its /\ 0 <= Desc.calc_descriptors_length ds /\
+     length (items_bits its) = (8 * Z.to_nat (2 + Desc.calc_descriptors_length ds))%nat) ->
+  (forall ds, 0 <= Desc.calc_descriptors_length ds) ->
+  forall c h sh d pmt its,
+  PSISectionHeader_TableID h = 2 -> PSISectionHeader_SectionLength h > 0 ->
+  PSISectionSyntaxData_PMT d = Some pmt ->
+  desc_ok (PMTData_ProgramDescriptors pmt) ->
+  Forall (fun es => desc_ok (PMTElementaryStream_ElementaryStreamDescriptors es)) (PMTData_ElementaryStreams pmt) ->
+  pmt_body_len pmt + 9 <= 4095 ->
+  enc_psi_section (mk_section c h sh d) = Ok its ->
+  exists pre, bytes_of_items its = pre ++ CrcSpec.be32 (crc32_mpeg2 pre) /\
+    spec_crc_ok (bytes_of_items its) /\
+    (3 <= length pre)%nat /\ nth 0 pre 0 = 2 /\
+    bitsf (firstn 3 pre) 12 12 = Z.of_nat (length (bytes_of_items its)) - 3.
+Proof. exact mux_pmt. Qed.
+Print Assumptions C09_mux_pmt_rel.
+
+(* C09_mux_pmt: the premise discharged with C14's lemmas (Proofs/DescProofs.v): for every PMT whose descriptor
+   loops are in C14's domain desc_dom -- no descriptor body above 255 bytes, loop below 4096 bytes, the descriptor
+   writer succeeds and its byte strings hold bytes -- and whose section fits the 12-bit length, whatever
+   writePSISection emits ends with the CRC-32/MPEG-2 of everything before it and carries a section_length equal to
+   the bytes after the field.  Any number of streams and descriptors of all 23 typed kinds, unknown and
+   user-defined tags. *)
+Theorem C09_mux_pmt : forall c h sh d pmt its,
+  PSISectionHeader_TableID h = 2 -> PSISectionHeader_SectionLength h > 0 ->
+  PSISectionSyntaxData_PMT d = Some pmt ->
+  desc_dom (PMTData_ProgramDescriptors pmt) ->
+  Forall (fun es => desc_dom (PMTElementaryStream_ElementaryStreamDescriptors es)) (PMTData_ElementaryStreams pmt) ->
+  pmt_body_len pmt + 9 <= 4095 ->
+  enc_psi_section (mk_section c h sh d) = Ok its ->
+  exists pre, bytes_of_items its = pre ++ CrcSpec.be32 (crc32_mpeg2 pre) /\
+    spec_crc_ok (bytes_of_items its) /\
+    (3 <= length pre)%nat /\ nth 0 pre 0 = 2 /\
+    bitsf (firstn 3 pre) 12 12 = Z.of_nat (length (bytes_of_items its)) - 3.
+Proof. exact mux_pmt_closed. Qed.
+Print Assumptions C09_mux_pmt.
+
+(* non-vacuity: a PAT with two programs is written, parsed back and delivered; a single flipped bit in
+   the program loop makes parsePSIData fail *)
+Definition C09_example_pat : PSIData :=
+  {| PSIData_PointerField := 0;
+     PSIData_Sections := [ {| PSISection_CRC32 := 0;
+        PSISection_Header := Some {| PSISectionHeader_PrivateBit := false; PSISectionHeader_SectionLength := 8;
+                                     PSISectionHeader_SectionSyntaxIndicator := true; PSISectionHeader_TableID := 0;
+                                     PSISectionHeader_TableType := [] |};
+        PSISection_Syntax := Some {|
+          PSISectionSyntax_Data := Some (syntax_data None None
+             (Some {| PATData_Programs := [ {| PATProgram_ProgramMapID := 4096; PATProgram_ProgramNumber := 1 |};
+                                            {| PATProgram_ProgramMapID := 8191; PATProgram_ProgramNumber := 65535 |} ];
+                      PATData_TransportStreamID := 7 |}) None None None);
+          PSISectionSyntax_Header := Some {| PSISectionSyntaxHeader_CurrentNextIndicator := true;
+                                             PSISectionSyntaxHeader_LastSectionNumber := 0;
+                                             PSISectionSyntaxHeader_SectionNumber := 0;
+                                             PSISectionSyntaxHeader_TableIDExtension := 7;
+                                             PSISectionSyntaxHeader_VersionNumber := 21 |} |} |} ] |}.
+
+Example C09_gate_example :
+  match write_psi_data C09_example_pat with
+  | Ok bs =>
+      andb match parse_psi_data_bytes bs with
+      | Ok d => (length (psi_to_data d zero_Packet 0) =? 1)%nat
+      | _ => false
+      end
+      match parse_psi_data_bytes (firstn 10 bs ++ [Z.lxor (nth 10 bs 0) 4] ++ skipn 11 bs) with
+         | Err _ => true
+         | _ => false
+         end
+  | _ => false
+  end = true.
+Proof. vm_compute. reflexivity. Qed.
+
+(* non-vacuity of C09_mux_pmt: a PMT with a registration descriptor (typed), an unknown and a user-defined one is
+   in the domain, the writer accepts it, and the demuxer model delivers it back *)
+Definition C09_example_descs : list Descriptor :=
+  [ set_Unknown (desc_hdr 3 0) {| DescriptorUnknown_Content := [1; 2; 3]; DescriptorUnknown_Tag := 3 |};
+    set_StreamIdentifier (desc_hdr 82 0) {| DescriptorStreamIdentifier_ComponentTag := 7 |} ].
+Example C09_example_desc_dom : desc_dom C09_example_descs.
+Proof.
+  unfold desc_dom. split; [repeat constructor|]. split; [reflexivity|].
+  eexists. split; [vm_compute; reflexivity|]. repeat constructor; cbv; intuition discriminate.
+Qed.
